@@ -33,6 +33,14 @@
   appends to `pool`.  The pool's own synchronisation is not modelled (its atomic operations are outside the
   vocabulary of the model); allocation happens inside the spin-bit section, deallocation outside it.
 
+  Tie to a trace of the real code: the words of the pool locks must be registered under the names `P<k>.spin`, `k` = order
+  in which the lock objects are first handed out (the model numbers them in the order of the attaching steps).  With
+  `vyukov_queue_pool< spin >` every `allocate` runs the placement-new constructor of the lock (`st P<k>.spin 0`, inside
+  the spin-bit section) and the harness' checking pool reads the word in `deallocate` (`ld P<k>.spin`): these two events
+  belong to the pool, not to pool_monitor, and are not steps of the model.  Which free lock the pool hands out depends on
+  the order of the pool's own operations, which are not events of the model: a replay may differ in the NAME of a reused
+  lock, never in the values of m_RefSpin or of the lock words.
+
   Event rendering (the `A` lines of the harness trace):
       ld   N<n>.refspin <v>
       cas+ N<n>.refspin <cur> <cur+3>      lock:   reference added, spin bit set
@@ -189,5 +197,11 @@ def render (os : List (Tid × Obs)) : List String :=
     | .call op => s!"T {t} CALL {op.name} {op.args}"
     | .ev e => s!"T {t} A {e}"
     | .ret r => s!"T {t} RET {r}"
+
+/-- The atomic events of a run, with the acting thread. -/
+def events (os : List (Tid × Obs)) : List (Tid × Ev) :=
+  os.filterMap fun (t, o) => match o with
+    | .ev e => some (t, e)
+    | _ => none
 
 end CdsVerif.Algo.PoolMonitor
